@@ -66,4 +66,23 @@ def readRows (sep : Char) (text : Str) : List Row :=
 def readCsv (ext : Ext) (sep : Char) (text : Str) : Blocks.Result :=
   Blocks.parseBlocks ⟨.pdtable, none, .raising, ext⟩ (readRows sep text) ⟨FixCfg.strict, 0, 0, []⟩
 
+/-- reading a text file opened by path (`open(path)`, newline=None): universal-newline translation, "\r\n" and a
+    lone "\r" both arrive as "\n".  Writing by path on this platform stores "\n" as it is (os.linesep = "\n"). -/
+def univNL : Str → Str
+  | [] => []
+  | '\r' :: '\n' :: rest => '\n' :: univNL rest
+  | '\r' :: rest => '\n' :: univNL rest
+  | c :: rest => c :: univNL rest
+
+/-- `read_csv(path)`: the text as a file opened by path delivers it -/
+def readCsvPath (ext : Ext) (sep : Char) (text : Str) : Blocks.Result := readCsv ext sep (univNL text)
+
+/-- the `sep` argument of `write_csv` / `read_csv`: `None` means the package-wide `pdtable.CSV_SEP`, read at call time;
+    writer and reader resolve it independently -/
+def resolveSep (pkgSep : Char) (arg : Option Char) : Char := arg.getD pkgSep
+def writeCsvApi (pkgSep : Char) (sepArg : Option Char) (naRep : Str) (ts : List TableVal) : Str :=
+  writeCsv (resolveSep pkgSep sepArg) naRep ts
+def readCsvApi (ext : Ext) (pkgSep : Char) (sepArg : Option Char) (byPath : Bool) (text : Str) : Blocks.Result :=
+  if byPath then readCsvPath ext (resolveSep pkgSep sepArg) text else readCsv ext (resolveSep pkgSep sepArg) text
+
 end Pdt.Write
